@@ -364,7 +364,12 @@ def compare_package(obs: Dict[str, Any], model: Dict[str, Any]) -> List[Tuple[st
         if impl_o != model_o:
             diffs.append(("outcome", {"gen": impl_o, "message": obs.get("message", "")[:160]}, {"gen": model_o, "msg": model.get("msg", "")}))
         elif impl_o != "ok":
-            if model.get("msg") and model["msg"] not in obs.get("message", ""):
+            # which of two malformed @mixin directives on two FRAGMENT definitions is met first depends on the iteration
+            # order of a Python set (the model's enumeration oracle; the driver runs it with the identity): both are the
+            # same documented refusal class, the message is not compared then
+            mixin_msgs = ("Arguments passed to mixin have to be strings.", "Required arguments (from, import) not found.")
+            both_mixin = any(m in obs.get("message", "") for m in mixin_msgs) and model.get("msg") in mixin_msgs
+            if model.get("msg") and model["msg"] not in obs.get("message", "") and not both_mixin:
                 diffs.append(("refusal-message", obs.get("message", "")[:160], model["msg"]))
             written = obs.get("dir_after_failure")
             if sorted(set(model.get("written", []))) != (written or []) or (written is not None) != bool(model.get("mkdir")):
@@ -404,3 +409,502 @@ def compare_package(obs: Dict[str, Any], model: Dict[str, Any]) -> List[Tuple[st
         if ir["all"] != m["all"]:
             diffs.append(("__all__", ir["all"], m["all"]))
     return diffs
+
+
+# --------------------------------------------------------------------------------------------
+# case streams
+# --------------------------------------------------------------------------------------------
+
+# features of gen/ops_gen.py that visit the finding regions of the result-type generator
+OPS_REGION_FEATURES: Dict[str, Dict[str, float]] = {
+    "inlineNoType": {"inline_notype": 0.15},
+    "typenameAlias": {"typename_alias": 0.5, "typename": 0.4},
+    "dupCompositeKey": {"dup_key": 0.4},
+    "droppedSelection": {"inline_iface": 0.4, "spread_iface": 0.3},
+    "unpackedAndInherited": {"mixin_and_unpacked": 0.8, "spread_same": 0.6},
+    "mroConflict": {"spread_same": 0.7, "nested_spread": 0.7},
+    "dirOnFragment": {"dir_frag": 0.4},
+    "abstractInMixin": {"abstract_in_mixin": 0.8, "spread_same": 0.6},
+}
+
+# (label, share of the budget, keyword arguments of c04_gen.make_case)
+STREAMS: List[Tuple[str, float, Dict[str, Any]]] = [
+    ("default", 0.34, {}),                                                  # no naming stress: the theorem region, mostly
+    ("documented-features", 0.14, {"mixin_p": 0.25, "literal_p": 0.6, "custom_ops_p": 0.3}),
+    ("documented-refusals", 0.08, {"mixin_p": 0.3, "malformed_mixin_p": 0.5, "anonymous_p": 0.35, "subscription_p": 0.8}),
+    ("naming-stress", 0.22, {"stress_p": 0.3}),                             # every naming defect, every scope
+    ("text-findings", 0.04, {"literal_p": 0.8, "quote_p": 0.4, "block_p": 0.3}),
+    ("plugin-extract-operations", 0.03, {"extract_ops_p": 1.0}),
+    ("custom-operations", 0.05, {"custom_ops_p": 1.0, "stress_p": 0.1}),
+]
+OPS_REGION_SHARE = 0.10  # split over OPS_REGION_FEATURES
+
+
+def draw(ctx: Ctx, label: str, n: int, **kw: Any) -> List[Dict[str, Any]]:
+    out: List[Dict[str, Any]] = []
+    i = 0
+    while len(out) < n and i < 6 * n + 30:
+        c = c04_gen.make_case(f"{ctx.seed}:{label}:{i}", i, **kw)
+        i += 1
+        if c:
+            c["stream"] = label
+            out.append(c)
+    return out
+
+
+def strip(c: Dict[str, Any]) -> Dict[str, Any]:
+    """what replays a case"""
+    return {k: c[k] for k in ("sdl", "queries", "config", "extra_files") if k in c}
+
+
+def fingerprint_items() -> List[Tuple[str, Optional[str]]]:
+    pk = "ariadne_codegen/client_generators/package.py"
+    items: List[Tuple[str, Optional[str]]] = [(pk, f"PackageGenerator.{m}") for m in (
+        "__init__", "generate", "add_operation", "_include_exceptions", "_validate_unique_file_names", "_generate_client", "_generate_enums",
+        "_generate_input_types", "_generate_result_types", "_generate_fragments", "_copy_files", "_generate_init")]
+    items.append((pk, "get_package_generator"))
+    items += [("ariadne_codegen/client_generators/init_file.py", "InitFileGenerator.add_import"),
+              ("ariadne_codegen/client_generators/init_file.py", "InitFileGenerator.generate")]
+    items += [("ariadne_codegen/client_generators/enums.py", f"EnumsGenerator.{m}") for m in (
+        "__init__", "generate", "_filter_class_defs", "_parse_enum_definition", "get_generated_public_names")]
+    items += [("ariadne_codegen/client_generators/input_types.py", f"InputTypesGenerator.{m}") for m in (
+        "__init__", "generate", "_filter_class_defs", "get_used_enums", "get_generated_public_names")]
+    items += [("ariadne_codegen/client_generators/result_types.py", f"ResultTypesGenerator.{m}") for m in (
+        "__init__", "generate", "_add_enums_scalars_fragments_imports", "get_imports")]
+    items += [("ariadne_codegen/client_generators/fragments.py", f"FragmentsGenerator.{m}") for m in ("generate", "_get_model_rebuild_calls")]
+    items += [("ariadne_codegen/client_generators/client.py", f"ClientGenerator.{m}") for m in ("__init__", "generate", "add_method", "_add_import")]
+    items += [("ariadne_codegen/codegen.py", "model_has_forward_refs"), ("ariadne_codegen/codegen.py", "ClassDefNamesVisitor"),
+              ("ariadne_codegen/utils.py", "ast_to_str"), ("ariadne_codegen/utils.py", "process_name"),
+              ("ariadne_codegen/client_generators/scalars.py", "generate_scalar_imports"), ("ariadne_codegen/main.py", "client")]
+    return items
+
+
+# --------------------------------------------------------------------------------------------
+# evaluation of a batch: real generation + import (forked), model, triggers, oracle, correspondence
+# --------------------------------------------------------------------------------------------
+
+
+def encode(cases: List[Dict[str, Any]]) -> List[Dict[str, Any]]:
+    lines = []
+    for c in cases:
+        try:
+            lines.append(model_line(c, "package"))
+        except Exception as e:
+            raise common.Infra(f"case {c.get('seed')} cannot be encoded for the driver: {e!r}")
+    return lines
+
+
+def observe_all(cases: List[Dict[str, Any]]) -> List[Tuple[str, Any]]:
+    runs = engine.pmap_forked(observe_case, [({**strip(c), "want": c.get("want", [])},) for c in cases], timeout=240)
+    # a timeout under load is not a finding: once more, alone
+    for i, (st, _r) in enumerate(runs):
+        if st == "timeout":
+            runs[i] = engine.forked(observe_case, {**strip(cases[i]), "want": cases[i].get("want", [])}, timeout=600)
+    return runs
+
+
+def failure_input(c: Dict[str, Any], trig: List[str]) -> Dict[str, Any]:
+    return {**strip(c), "triggers": trig, "stream": c.get("stream"), "seed": c.get("seed")}
+
+
+def evaluate(ctx: Ctx, cases: List[Dict[str, Any]], res: Result, region: str, correspond: bool = True) -> List[Dict[str, Any]]:
+    """-> per case {"verdicts", "triggers", "diffs"}; failures / mismatches / counters go to `res`"""
+    if not cases:
+        return []
+    runs = observe_all(cases)
+    lines = encode(cases) if correspond else []
+    models = run_driver(lines) if correspond else [None] * len(cases)
+    trigs = run_driver([{**l, "op": "triggers"} for l in lines]) if correspond else [[] for _ in cases]
+    invalid = run_driver([{**l, "op": "valid"} for l in lines]) if correspond else [[] for _ in cases]
+    out = []
+    for c, (status, r), m, t, inv in zip(cases, runs, models, trigs, invalid):
+        if inv:
+            # `Valid` (Model/PackageValid.lean, the hypothesis of the theorems) must accept what graphql-core's validate accepts
+            res.mismatches.append(Mismatch("Valid-rejects-a-validated-input", failure_input(c, t), "graphql-core validate: no error", inv))
+        if status == "exc":
+            raise common.Infra(f"observer crashed on case {c.get('seed')}: {str(r)[:400]}")
+        verdicts = judge(c, status, r) if status == "ok" else [("generation-does-not-terminate", "no answer within 600 s")]
+        res.evaluations += 1
+        res.count(f"cases:{region}")
+        outcome = r["gen"] if status == "ok" else status
+        res.count("outcome:" + outcome)
+        if outcome != "ok" and status == "ok":
+            res.count("refusal-message:" + r.get("message", "")[:48]) if outcome.startswith("refusal") else None
+        for x in t:
+            res.count("trigger:" + x)
+        res.count("region:supported" if not t else "region:inside-a-finding-region")
+        for sig, detail in verdicts:
+            trig = rt_assign(t, sig)
+            res.failures.append(Failure(sig, trig, failure_input(c, t), detail))
+            res.count("oracle-failure:" + sig)
+        diffs: List[Tuple[str, Any, Any]] = []
+        if correspond and status == "ok":
+            diffs = compare_package(r, m)
+            for obs, impl, model in diffs:
+                res.mismatches.append(Mismatch(obs, failure_input(c, t), impl, model, trigger=(t[0] if t else None)))
+            res.count("correspondence:package-compared")
+            if not t:
+                proved = (m.get("ok") or m).get("proved")
+                res.count("theorem-region:Valid+Supported_04+Proved_04 (C04_partial applies)" if proved and not inv else
+                          "theorem-region:Supported_04 but outside Proved_04 (correspondence + oracle only)")
+                if not proved:
+                    res.extra.setdefault("outside_proved_samples", [])
+                    if len(res.extra["outside_proved_samples"]) < 5:
+                        res.extra["outside_proved_samples"].append({"seed": c.get("seed"), "model": {k: v for k, v in m.items() if k != "ok"}, "wellScoped": (m.get("ok") or {}).get("wellScoped")})
+            if "ok" in m:
+                ws = m["ok"].get("wellScoped") or []
+                res.count("model:well-scoped" if not ws else "model:not-well-scoped")
+                for part in ws:
+                    res.count("model:violated-part:" + part.split(":", 1)[1])
+                # WellScoped (Spec/PyScope.lean) is validated, not verified: outside the finding regions the model's package must
+                # be well scoped (theorem generated_wellscoped + Proved_04) and the real package must import
+                if not t and ws:
+                    res.mismatches.append(Mismatch("well-scoped-outside-finding-regions", failure_input(c, t), "no trigger holds", ws))
+                n_classes = sum(len(mod["classes"]) for mod in m["ok"]["modules"])
+                if not verdicts and not diffs and n_classes > 3:
+                    res.distinct.add(common.stable_hash([c["sdl"], c["queries"], c["config"]]))
+            elif not verdicts and not diffs:
+                res.distinct.add(common.stable_hash([c["sdl"], c["queries"], c["config"]]))
+        if len(res.samples) < 6 and status == "ok" and not verdicts:
+            res.sample({"observation": "package", "stream": c.get("stream"), "queries": c["queries"][:400], "config": c["config"],
+                        "files": r.get("files"), "outcome": outcome})
+        out.append({"verdicts": verdicts, "triggers": t, "diffs": diffs, "outcome": outcome})
+    return out
+
+
+def rt_assign(triggers: List[str], signature: str) -> Optional[str]:
+    from . import rt_common
+
+    return rt_common.assign_trigger(PROP, triggers, signature)
+
+
+# --------------------------------------------------------------------------------------------
+# corpus: finding witnesses (open and fixed) and minimised past failures
+# --------------------------------------------------------------------------------------------
+
+
+def corpus_cases() -> List[Tuple[str, Dict[str, Any]]]:
+    d = common.CORPUS / PROP
+    return [(f.stem, json.loads(f.read_text())) for f in sorted(d.glob("*.json"))] if d.exists() else []
+
+
+def replay_corpus(ctx: Ctx, res: Result) -> None:
+    items = corpus_cases()
+    if not items:
+        return
+    cases = []
+    for name, entry in items:
+        c = dict(entry["case"])
+        c.setdefault("config", {})
+        c.setdefault("extra_files", {})
+        c["seed"] = "corpus:" + name
+        c["stream"] = "corpus"
+        cases.append(c)
+    sub = Result()
+    outs = evaluate(ctx, cases, sub, "corpus")
+    findings = {f["id"]: f for f in common.load_findings(PROP)}
+    sub_failures = list(sub.failures)
+    sub.failures = []
+    res.merge(sub)
+    by_case: Dict[str, List[Failure]] = {}
+    for f in sub_failures:
+        by_case.setdefault(f.input.get("seed"), []).append(f)
+    for (name, entry), c, o in zip(items, cases, outs):
+        fid = entry.get("finding")
+        fails = by_case.get(c["seed"], [])
+        if fid and fid in findings:
+            fd = findings[fid]
+            sigs = fd.get("signature") if isinstance(fd.get("signature"), list) else [fd.get("signature")]
+            if fd.get("status") == "open":
+                hit = [f for f in fails if f.trigger == fd.get("trigger") and f.signature in sigs]
+                prev = res.witness_status.get(fid)
+                res.witness_status[fid] = "reproduces" if hit or prev == "reproduces" else "gone"
+                if entry.get("expect") and not any(f.signature == entry["expect"] for f in fails) and hit:
+                    ctx.notes.append(f"corpus {name}: fails with {[f.signature for f in fails]}, recorded {entry['expect']}")
+            else:
+                res.witness_status[fid] = "reproduces" if fails else "gone"
+                for f in fails:  # a repaired defect that fails again is a violation
+                    f.trigger = None
+        res.failures += fails
+
+
+# --------------------------------------------------------------------------------------------
+# shrinking (structural: drop operations / fragments / configuration keys, keep the failure signature)
+# --------------------------------------------------------------------------------------------
+
+
+def _without_definition(queries: str, index: int) -> Optional[str]:
+    from graphql import FragmentDefinitionNode, FragmentSpreadNode, parse, print_ast, visit, Visitor
+
+    doc = parse(queries)
+    defs = list(doc.definitions)
+    if len(defs) <= 1:
+        return None
+    del defs[index]
+    used: set = set()
+
+    class V(Visitor):
+        def enter_fragment_spread(self, node: FragmentSpreadNode, *_: Any) -> None:
+            used.add(node.name.value)
+
+    # drop fragments nothing spreads any more (NoUnusedFragments)
+    while True:
+        used.clear()
+        for d in defs:
+            visit(d, V())
+        keep = [d for d in defs if not isinstance(d, FragmentDefinitionNode) or d.name.value in used]
+        if len(keep) == len(defs):
+            break
+        defs = keep
+    if not any(not isinstance(d, FragmentDefinitionNode) for d in defs):
+        return None
+    return "\n\n".join(print_ast(d) for d in defs) + "\n"
+
+
+def _prune_document(defs: List[Any]) -> Optional[str]:
+    """drop fragments nothing spreads and variables nothing uses (the document must stay valid); None if nothing is left"""
+    from graphql import FragmentDefinitionNode, FragmentSpreadNode, OperationDefinitionNode, VariableNode, Visitor, print_ast, visit
+
+    while True:
+        spread: set = set()
+
+        class S(Visitor):
+            def enter_fragment_spread(self, node: FragmentSpreadNode, *_: Any) -> None:
+                spread.add(node.name.value)
+
+        for d in defs:
+            visit(d, S())
+        keep = [d for d in defs if not isinstance(d, FragmentDefinitionNode) or d.name.value in spread]
+        if len(keep) == len(defs):
+            break
+        defs = keep
+    frags = {d.name.value: d for d in defs if isinstance(d, FragmentDefinitionNode)}
+    if not any(isinstance(d, OperationDefinitionNode) for d in defs):
+        return None
+
+    def used_vars(node: Any, seen: set) -> set:
+        out: set = set()
+
+        class V(Visitor):
+            def enter_variable(self, n: VariableNode, *_: Any) -> None:
+                out.add(n.name.value)
+
+            def enter_fragment_spread(self, n: FragmentSpreadNode, *_: Any) -> None:
+                name = n.name.value
+                if name in frags and name not in seen:
+                    seen.add(name)
+                    out.update(used_vars(frags[name].selection_set, seen))
+
+        visit(node, V())
+        return out
+
+    for d in defs:
+        if isinstance(d, OperationDefinitionNode) and d.variable_definitions:
+            uv = used_vars(d.selection_set, set())
+            for dv in d.directives or ():
+                uv |= used_vars(dv, set())
+            d.variable_definitions = tuple(v for v in d.variable_definitions if v.variable.name.value in uv)
+    return "\n\n".join(print_ast(d) for d in defs) + "\n"
+
+
+def _selection_sets(doc: Any) -> List[Any]:
+    from graphql import SelectionSetNode, Visitor, visit
+
+    out: List[Any] = []
+
+    class V(Visitor):
+        def enter_selection_set(self, node: SelectionSetNode, *_: Any) -> None:
+            out.append(node)
+
+    visit(doc, V())
+    return out
+
+
+def _without_selection(queries: str, k: int) -> Optional[str]:
+    """the document without its k-th selection (DFS order over all selection sets); None when there is no such selection
+    or its selection set would become empty"""
+    from graphql import parse
+
+    doc = parse(queries, no_location=True)
+    n = 0
+    for ss in _selection_sets(doc):
+        sels = list(ss.selections)
+        if n + len(sels) > k:
+            if len(sels) == 1:
+                return None
+            del sels[k - n]
+            ss.selections = tuple(sels)
+            return _prune_document(list(doc.definitions))
+        n += len(sels)
+    return None
+
+
+def _count_selections(queries: str) -> int:
+    from graphql import parse
+
+    return sum(len(ss.selections) for ss in _selection_sets(parse(queries, no_location=True)))
+
+
+def shrink(case: Dict[str, Any], signature: str, budget: int = 70) -> Dict[str, Any]:
+    """structural: drop whole definitions, then single selections (fields / spreads / inline fragments; unused fragments and
+    variables go with them), then configuration keys - every candidate must stay valid and keep the failure signature"""
+    from graphql import build_schema, parse, validate
+
+    def fails(c: Dict[str, Any]) -> bool:
+        status, r = engine.forked(observe_case, strip(c), timeout=240)
+        return status == "ok" and any(s == signature for s, _ in judge(c, status, r))
+
+    cur = dict(case)
+    try:
+        schema = build_schema(cur["sdl"] + c04_gen.MIXIN_SDL)
+    except Exception:
+        return cur
+
+    def valid(q: str) -> bool:
+        try:
+            return not validate(schema, parse(q))
+        except Exception:
+            return False
+
+    progress = True
+    while progress and budget > 0:
+        progress = False
+        try:
+            n_defs = len(parse(cur["queries"]).definitions)
+        except Exception:
+            return cur
+        for i in range(n_defs):
+            if budget <= 0:
+                break
+            q = _without_definition(cur["queries"], i)
+            if not q or not valid(q):
+                continue
+            budget -= 1
+            cand = {**cur, "queries": q}
+            if fails(cand):
+                cur = cand
+                progress = True
+                break
+    # single selections, last first (leaves before the selection sets that contain them)
+    try:
+        k = _count_selections(cur["queries"]) - 1
+    except Exception:
+        k = -1
+    while k >= 0 and budget > 0:
+        try:
+            q = _without_selection(cur["queries"], k)
+        except Exception:
+            q = None
+        if q and valid(q):
+            budget -= 1
+            cand = {**cur, "queries": q}
+            if fails(cand):
+                cur = cand
+                k = min(k, _count_selections(cur["queries"])) - 1
+                continue
+        k -= 1
+    for key in list((cur.get("config") or {}).keys()):
+        if budget <= 0:
+            break
+        cfg = {k2: v for k2, v in cur["config"].items() if k2 != key}
+        budget -= 1
+        cand = {**cur, "config": cfg}
+        if fails(cand):
+            cur = cand
+    return cur
+
+
+def shrink_unknown(ctx: Ctx, res: Result) -> None:
+    """unknown failures only (a violation is about to be reported): replace the input by a smaller one with the same signature
+    that still lies outside every finding region with that signature"""
+    seen: set = set()
+    for f in res.failures:
+        if f.trigger is not None or f.signature.startswith("harness-") or f.key() in seen or not isinstance(f.input, dict) or "sdl" not in f.input:
+            continue
+        seen.add(f.key())
+        try:
+            small = shrink(f.input, f.signature)
+            if small.get("queries") != f.input.get("queries") or small.get("config") != f.input.get("config"):
+                t = triggers_of([small])[0]
+                if rt_assign(t, f.signature) is None:
+                    f.input = {**failure_input(small, t), "shrunk_from": {"queries": f.input.get("queries"), "config": f.input.get("config")}}
+        except common.Infra:
+            raise
+        except Exception as e:  # shrinking is a convenience
+            ctx.log(f"shrinking raised {e!r}")
+
+
+# --------------------------------------------------------------------------------------------
+# run / search / replay
+# --------------------------------------------------------------------------------------------
+
+RULE = ("seeded type-directed schemas (objects, interfaces incl. interface-implements-interface, unions, enums, recursive inputs with defaults, custom "
+        "scalars, custom root names, subscriptions) x operation sets grown from them (aliases, nesting, wrappers, inline / named / nested fragments, "
+        "@skip/@include, @mixin, literal arguments), filtered by graphql-core validate with the full rule set, x configurations walking the 2^5 "
+        "combinations of snake case / sync / OpenTelemetry / include_all_inputs / include_all_enums, with custom operations, module / class names, a "
+        "custom base client, files_to_include and custom scalars (plain / dotted / relative, parse / serialize) drawn; a naming-stress stream renames "
+        "operations, variables, fragments, fields, input fields, enum values and types into the pools of the naming defects. Distinct non-trivial = "
+        "distinct (schema, document, configuration) with > 3 emitted classes that pass the oracle AND agree with the model.")
+
+
+def run(ctx: Ctx, st: Optional[LeanStatus]) -> Result:
+    res = Result()
+    res.rule = RULE
+    res.extra["fingerprints"] = common.fingerprints(ctx, fingerprint_items())
+    driver_ok = st is not None and st.driver_ok
+    if not driver_ok:
+        res.mismatches.append(Mismatch("package", {}, "driver not built", None))
+        return res
+    replay_corpus(ctx, res)
+    total = ctx.budget(300, 3000)
+    for label, share, kw in STREAMS:
+        evaluate(ctx, draw(ctx, label, max(4, int(total * share)), **kw), res, label)
+    per = max(3, int(total * OPS_REGION_SHARE / len(OPS_REGION_FEATURES)))
+    for name, feats in OPS_REGION_FEATURES.items():
+        evaluate(ctx, draw(ctx, "region-" + name, per, features=feats), res, "region:" + name)
+    shrink_unknown(ctx, res)
+    res.oracle_only += [
+        "CPython's grammar and import system, pydantic's class construction (__pydantic_complete__): the real package is imported in a forked "
+        "interpreter; Spec/PyScope.WellScoped is the model-side reading, validated against it, not verified",
+        "black / isort / autoflake (utils.ast_to_str) are not modelled beyond autoflake's pruning of unused imports (ModuleIR.effectiveImports); the "
+        "formatter is a parameter of the model (FmtOracle) and every emitted file is read back with Python's ast after formatting",
+        "the four custom-operation modules are compared as files only (their content is C14's model); their import is judged by the oracle",
+    ]
+    res.assumptions += [
+        "the harness derives both vocabularies of the model input (result-type schema and input definitions) from one graphql-core schema",
+        "graphql-core's validate (full rule set + the injected @mixin directive) is the judge of input validity; Spec/Validate.validDoc is its decidable core",
+    ]
+    if ctx.notes:
+        res.extra["notes"] = ctx.notes[:20]
+    return res
+
+
+def search(ctx: Ctx) -> Result:
+    """the tie broke or a proof obligation no longer checks: look for a concrete failing input with the oracle alone"""
+    res = Result()
+    total = 1500
+    for label, share, kw in STREAMS:
+        evaluate(ctx, draw(ctx, "search-" + label, max(4, int(total * share)), **kw), res, "search:" + label,
+                 correspond=(common.LEAN / ".lake/build/bin" / common.driver_name(PROP)).exists())
+    shrink_unknown(ctx, res)
+    return res
+
+
+def replay(ctx: Ctx, payload: Dict[str, Any]) -> int:
+    inp = payload.get("input")
+    if not isinstance(inp, dict) or "sdl" not in inp:
+        print(json.dumps(payload, indent=1)[:3000])
+        return 1
+    case = {**strip(inp), "want": []}
+    case.setdefault("config", {})
+    status, r = engine.forked(observe_case, case, timeout=600)
+    verdicts = judge(case, status, r) if status != "timeout" else [("generation-does-not-terminate", "")]
+    for sig, detail in verdicts:
+        print("FAIL", sig, detail[:300])
+    try:
+        print("triggers:", triggers_of([case])[0])
+    except common.Infra as e:
+        print("triggers: not available:", e)
+    if status == "ok" and r.get("gen") != "ok":
+        print("generation:", r.get("gen"), r.get("message", "")[:300])
+    return 1 if verdicts else 0
